@@ -20,16 +20,18 @@ func c13Parent(name string) string {
 }
 
 // c13WellFormed: every live non-root row has a live parent row that is a directory.
+func c13Abs(name string) string { return "/" + strings.TrimPrefix(name, "/") }
+
 func c13WellFormed(rows []*models.Header) bool {
 	ok := true
 	for _, r := range rows {
-		if r.Deleted == 1 || r.Name == "/" || r.Linkname != "" {
+		if r.Deleted == 1 || c13Abs(r.Name) == "/" || r.Linkname != "" {
 			continue
 		}
-		par := c13Parent(r.Name)
+		par := c13Parent(c13Abs(r.Name))
 		found := false
 		for _, q := range rows {
-			if q.Deleted != 1 && q.Linkname == "" && q.Name == par && q.Typeflag == int64(tar.TypeDir) {
+			if q.Deleted != 1 && q.Linkname == "" && c13Abs(q.Name) == par && q.Typeflag == int64(tar.TypeDir) {
 				found = true
 			}
 		}
@@ -46,7 +48,14 @@ var c13Parents = []string{"", "/d", "/f", "/missing", "/d/sub", "/d/s"}
 // well-formed tree (Inv is inductive), whatever it returns.
 func Harness_C13_tree_stays_well_formed() {
 	v := verifNewFS(config.PipeConfig{}, false, true)
-	v.rootOnly()
+	if vm.Bool("rebuiltIndex") {
+		// opened over an index rebuilt from the tape: names are stored relative to the root ""
+		v.Env.RelNames = true
+		v.Env.AddEntry("/", tar.TypeDir, 0, false, "")
+		v.Env.P.VerifSetRoot("")
+	} else {
+		v.rootOnly()
+	}
 	v.Env.AddEntry("/d", tar.TypeDir, 0, false, "")
 	v.Env.AddEntry("/f", tar.TypeReg, 0, false, "")
 	v.Env.AddEntry("/d/g", tar.TypeReg, 0, false, "")
@@ -98,7 +107,7 @@ func Harness_C13_tree_stays_well_formed() {
 		// MkdirAll: the whole chain exists afterwards
 		found := false
 		for _, r := range rows {
-			if r.Deleted != 1 && r.Name == c13Parents[pi]+"/"+comp && r.Typeflag == int64(tar.TypeDir) {
+			if r.Deleted != 1 && c13Abs(r.Name) == c13Parents[pi]+"/"+comp && r.Typeflag == int64(tar.TypeDir) {
 				found = true
 			}
 		}
